@@ -7,8 +7,22 @@ import (
 	"github.com/smarthome-go/homescript/v3/homescript/errors"
 )
 
-// TODO: set maximum recursion here
+// A failed cast is a catchable exception which names the offending path (like the VM's cast).
+func newCastErr(path string, span errors.Span, message string) *Interrupt {
+	location := ""
+	if path != "" {
+		location = fmt.Sprintf(" at `%s`", path)
+	}
+	return NewThrowInterrupt(span, fmt.Sprintf("Cast error%s: %s", location, message))
+}
+
 func DeepCast(val Value, typ ast.Type, span errors.Span, allowCasts bool) (*Value, *Interrupt) {
+	return deepCastRecursive(val, typ, span, allowCasts, "")
+}
+
+// TODO: set maximum recursion here
+// `path` describes the position in nested structures so that the error message will be clearer.
+func deepCastRecursive(val Value, typ ast.Type, span errors.Span, allowCasts bool, path string) (*Value, *Interrupt) {
 	// This does nothing as casting to an `any` does not validate anything.
 	if typ.Kind() == ast.AnyTypeKind {
 		return &val, nil
@@ -26,7 +40,7 @@ func DeepCast(val Value, typ ast.Type, span errors.Span, allowCasts bool) (*Valu
 			valInner := *valOption.Inner
 			typInner := typOption.Inner
 
-			innerCast, i := DeepCast(valInner, typInner, span, allowCasts)
+			innerCast, i := deepCastRecursive(valInner, typInner, span, allowCasts, path+"<option-inner>")
 			if i != nil {
 				return nil, i
 			}
@@ -37,7 +51,7 @@ func DeepCast(val Value, typ ast.Type, span errors.Span, allowCasts bool) (*Valu
 			return NewNoneOption(), nil
 		}
 		// A `T` becomes a `?T`: the wrapped value must itself be a `T`
-		innerCast, i := DeepCast(val, typ.(ast.OptionType).Inner, span, allowCasts)
+		innerCast, i := deepCastRecursive(val, typ.(ast.OptionType).Inner, span, allowCasts, path)
 		if i != nil {
 			return nil, i
 		}
@@ -47,11 +61,7 @@ func DeepCast(val Value, typ ast.Type, span errors.Span, allowCasts bool) (*Valu
 	switch val.Kind() {
 	case BoolValueKind:
 		if !allowCasts && typ.Kind() != ast.BoolTypeKind {
-			return nil, NewRuntimeErr(
-				fmt.Sprintf("Incompatible values: a value of type '%s' is not compatible with a value of type '%s'", val.Kind(), typ),
-				CastErrorKind,
-				span,
-			)
+			return nil, newCastErr(path, span, fmt.Sprintf("Incompatible values: a value of type '%s' is not compatible with a value of type '%s'", val.Kind(), typ))
 		}
 
 		baseBool := val.(ValueBool).Inner
@@ -77,11 +87,7 @@ func DeepCast(val Value, typ ast.Type, span errors.Span, allowCasts bool) (*Valu
 		}
 	case IntValueKind:
 		if !allowCasts && typ.Kind() != ast.IntTypeKind {
-			return nil, NewRuntimeErr(
-				fmt.Sprintf("Incompatible values: a value of type '%s' is not compatible with a value of type '%s'", val.Kind(), typ),
-				CastErrorKind,
-				span,
-			)
+			return nil, newCastErr(path, span, fmt.Sprintf("Incompatible values: a value of type '%s' is not compatible with a value of type '%s'", val.Kind(), typ))
 		}
 
 		baseInt := val.(ValueInt).Inner
@@ -102,11 +108,7 @@ func DeepCast(val Value, typ ast.Type, span errors.Span, allowCasts bool) (*Valu
 		}
 	case FloatValueKind:
 		if !allowCasts && typ.Kind() != ast.FloatTypeKind {
-			return nil, NewRuntimeErr(
-				fmt.Sprintf("Incompatible values: a value of type '%s' is not compatible with a value of type '%s'", val.Kind(), typ),
-				CastErrorKind,
-				span,
-			)
+			return nil, newCastErr(path, span, fmt.Sprintf("Incompatible values: a value of type '%s' is not compatible with a value of type '%s'", val.Kind(), typ))
 		}
 
 		baseFloat := val.(ValueFloat).Inner
@@ -127,11 +129,7 @@ func DeepCast(val Value, typ ast.Type, span errors.Span, allowCasts bool) (*Valu
 		}
 	case ObjectValueKind:
 		if !allowCasts && (typ.Kind() != ast.ObjectTypeKind && typ.Kind() != ast.AnyObjectTypeKind) {
-			return nil, NewRuntimeErr(
-				fmt.Sprintf("Incompatible values: a value of type '%s' is not compatible with a value of type '%s'", val.Kind(), typ),
-				CastErrorKind,
-				span,
-			)
+			return nil, newCastErr(path, span, fmt.Sprintf("Incompatible values: a value of type '%s' is not compatible with a value of type '%s'", val.Kind(), typ))
 		}
 
 		objVal := val.(ValueObject)
@@ -148,7 +146,7 @@ func DeepCast(val Value, typ ast.Type, span errors.Span, allowCasts bool) (*Valu
 				found := false
 				for _, otherField := range objType.ObjFields {
 					if key == otherField.FieldName.Ident() {
-						newField, i := DeepCast(*field, otherField.Type, span, allowCasts)
+						newField, i := deepCastRecursive(*field, otherField.Type, span, allowCasts, path+"."+key)
 						if i != nil {
 							return nil, i
 						}
@@ -158,32 +156,20 @@ func DeepCast(val Value, typ ast.Type, span errors.Span, allowCasts bool) (*Valu
 					}
 				}
 				if !found {
-					return nil, NewRuntimeErr(
-						fmt.Sprintf("Incompatible values: found unexpected field '%s'", key),
-						CastErrorKind,
-						span,
-					)
+					return nil, newCastErr(path, span, fmt.Sprintf("Incompatible values: found unexpected field '%s'", key))
 				}
 			}
 
 			for _, field := range objType.ObjFields {
 				_, found := objVal.FieldsInternal[field.FieldName.Ident()]
 				if !found {
-					return nil, NewRuntimeErr(
-						fmt.Sprintf("Incompatible values: field '%s' was expected but not found", field.FieldName.Ident()),
-						CastErrorKind,
-						span,
-					)
+					return nil, newCastErr(path, span, fmt.Sprintf("Incompatible values: field '%s' was expected but not found", field.FieldName.Ident()))
 				}
 			}
 
 			return NewValueObject(outputFields), nil
 		default:
-			return nil, NewRuntimeErr(
-				fmt.Sprintf("Incompatible values: a value of type '%s' is not compatible with a value of type '%s'", val.Kind(), typ),
-				CastErrorKind,
-				span,
-			)
+			return nil, newCastErr(path, span, fmt.Sprintf("Incompatible values: a value of type '%s' is not compatible with a value of type '%s'", val.Kind(), typ))
 		}
 	case ListValueKind:
 		listVal := val.(ValueList)
@@ -192,8 +178,8 @@ func DeepCast(val Value, typ ast.Type, span errors.Span, allowCasts bool) (*Valu
 			asType := typ.(ast.ListType)
 
 			outputList := make([]*Value, 0)
-			for _, item := range *listVal.Values {
-				newVal, i := DeepCast(*item, asType.Inner, span, allowCasts)
+			for index, item := range *listVal.Values {
+				newVal, i := deepCastRecursive(*item, asType.Inner, span, allowCasts, fmt.Sprintf("%s[%d]", path, index))
 				if i != nil {
 					return nil, i
 				}
@@ -204,21 +190,13 @@ func DeepCast(val Value, typ ast.Type, span errors.Span, allowCasts bool) (*Valu
 		}
 	case AnyObjectValueKind:
 		if typ.Kind() != ast.AnyObjectTypeKind {
-			return nil, NewRuntimeErr(
-				fmt.Sprintf("Incompatible values: a value of type '%s' is not compatible with a value of type '%s'", val.Kind(), typ),
-				CastErrorKind,
-				span,
-			)
+			return nil, newCastErr(path, span, fmt.Sprintf("Incompatible values: a value of type '%s' is not compatible with a value of type '%s'", val.Kind(), typ))
 		}
 
 		return &val, nil
 	case OptionValueKind:
 		if typ.Kind() != ast.OptionTypeKind {
-			return nil, NewRuntimeErr(
-				fmt.Sprintf("Incompatible values: a value of type '%s' is not compatible with a value of type '%s'", val.Kind(), typ),
-				CastErrorKind,
-				span,
-			)
+			return nil, newCastErr(path, span, fmt.Sprintf("Incompatible values: a value of type '%s' is not compatible with a value of type '%s'", val.Kind(), typ))
 		}
 
 		opt := val.(ValueOption)
@@ -230,7 +208,7 @@ func DeepCast(val Value, typ ast.Type, span errors.Span, allowCasts bool) (*Valu
 		}
 
 		// otherwise, the inner type must also match
-		return DeepCast(*opt.Inner, optType, span, allowCasts)
+		return deepCastRecursive(*opt.Inner, optType, span, allowCasts, path+"<option-inner>")
 	case ClosureValueKind, FunctionValueKind, BuiltinFunctionValueKind:
 		// functions cannot be cast (falls through to the error below)
 	case NullValueKind:
@@ -251,9 +229,5 @@ func DeepCast(val Value, typ ast.Type, span errors.Span, allowCasts bool) (*Valu
 			return &val, nil
 		}
 	}
-	return nil, NewRuntimeErr(
-		fmt.Sprintf("Incompatible values: a value of type '%s' is not compatible with a value of type '%s'", val.Kind(), typ),
-		CastErrorKind,
-		span,
-	)
+	return nil, newCastErr(path, span, fmt.Sprintf("Incompatible values: a value of type '%s' is not compatible with a value of type '%s'", val.Kind(), typ))
 }
